@@ -35,6 +35,7 @@ inductive Op
   | recv (k : Nat)
   | consume (k : Nat)
   | shiftBack (k : Nat)
+  | bodyDrop (k : Nat)   -- process_request_body: `k` processed bytes leave the window front (memmove of the rest)
   | alloc (n : Nat)
   | shrinkRead
   | maxWrite
@@ -169,6 +170,8 @@ def step (c : CM) : Op → CM × Res
     match c.rb with
     | some r => if !c.sending ∧ c.rbBase + k ≤ r then ({ c with rb := some (r - k), rbSize := c.rbSize + k }, .ok) else (c, .badOp)
     | none => (c, .badOp)
+  | .bodyDrop k =>
+    if !c.sending ∧ c.rb.isSome ∧ k ≤ c.rbOff then ({ c with rbOff := c.rbOff - k }, .ok) else (c, .badOp)
   | .alloc n => let (c', r) := allocMem c n; (c', .ptr r)
   | .shrinkRead => if c.sending then (c, .badOp) else ({ shrinkRead c with sending := true }, .ok)
   | .maxWrite => if !c.sending then (c, .badOp) else let (c', n) := maxWrite c; (c', .size n)
